@@ -7,7 +7,7 @@
 From Verif Require Import Lib.Base Model.Cfg Model.Canon Proofs.CodecProofs.
 From Verif Require Model.DecodeOnePass Proofs.DecodeOnePassProofs.
 From Verif Require Import Lib.Utf8 Lib.GoStr Gen.Tables Gen.Options Model.Url Model.Host Model.Machine Model.Api.
-From Verif Require Import Proofs.RecordInv Proofs.MachineInv Proofs.HostProofs Proofs.SearchParamsProofs Proofs.RoundTripBase Proofs.RoundTripHosts Proofs.CanonIdem.
+From Verif Require Import Proofs.RecordInv Proofs.MachineInv Proofs.HostProofs Proofs.SearchParamsProofs Proofs.RoundTripBase Proofs.RoundTripHosts Proofs.CanonIdem Proofs.NormalFormPhases Proofs.NormalForm Proofs.SpellingProofs Proofs.RepeatedSteps Proofs.RepeatedIdem Proofs.RepeatedFixed Proofs.RepeatedExamples.
 
 (* repeated decoding always terminates within its fuel and ends in a string without decodable escapes *)
 Theorem C17_repeated_decode_total : forall s, repeatedDecode s <> None.
@@ -95,3 +95,25 @@ Example C17_premises_met :
                     && match p_sortQuery p with NoSort => true | _ => false end)
     [prof_WhatWg; prof_none; copt_WithRemoveUserInfo; copt_WithRemovePort; copt_WithRemoveFragment; copt_WithDefaultScheme] = true.
 Proof. exact canonical_fixed_point_profiles. Qed.
+
+(* THE FIXED POINT UNDER REPEATED PERCENT-DECODING (Proofs/RepeatedFixed.v): for every profile with repeated decoding -
+   alone or combined with any of the removals and either sort-query mode - whose parser configuration satisfies cfg_okm
+   and cfg_rt (no Latin-1 override, no skip-equals), and every text of the web-URL grammar whose decoded components are
+   literal for the steps' encode sets (rep_ok: in particular unreserved characters in any, also nested, escaping), the
+   canonical string canonicalizes to itself. Not covered: GoogleSafeBrowsing and Semantic themselves (their parser
+   options lie outside cfg_rt): decided on the implementation over all spellings of the grammar. *)
+Theorem C17_repeated_fixed_point : forall idna_raw, H3 idna_raw -> forall p,
+  cfg_okm (p_cfg p) = true -> cfg_rt (p_cfg p) = true -> c_latin1 (p_cfg p) = false -> c_skipEq (p_cfg p) = false ->
+  p_repeated p = true ->
+  forall k h u s, comps_ok (p_cfg p) k = true -> host_val idna_raw (p_cfg p) (k_host k) = Some h ->
+  rep_ok idna_raw p (nf (p_cfg p) k h) ->
+  (forall u0, parseHost idna_raw (p_cfg p) u0 h false = Ok u0 h) ->
+  ProfileParse idna_raw p (text_of k) = CUrl u -> Href u false = Some s ->
+  exists u', ProfileParse idna_raw p s = CUrl u' /\ same_components u' u /\ Href u' false = Some s.
+Proof. exact repeated_fixed_point. Qed.
+Print Assumptions C17_repeated_fixed_point.
+
+Example C17_repeated_premises_met : forall p, p = prof_rep \/ p = prof_rep_all ->
+  exists u s u', ProfileParse idna_toy p (text_of rk1) = CUrl u /\ Href u false = Some s /\
+                 ProfileParse idna_toy p s = CUrl u' /\ same_components u' u /\ Href u' false = Some s.
+Proof. exact repeated_fixed_point_ex. Qed.
